@@ -275,6 +275,14 @@ static void trial_func(void *vp)
     }
 }
 
+static void pilot_func(void *vp)
+{
+    unsigned char *ep = vp;
+    uint64_t r = rng_probe(0x9177);
+    r = vx_mix(r, run_model((struct model *)(ep + 16), 0x9178, false));
+    memcpy(ep, &r, 8);
+}
+
 static void fill(unsigned char *a)
 {
     memset(a, 0, (size_t)16 * SZ);
@@ -299,6 +307,16 @@ static void run_one(void)
     const int tc = vx_choose_free(5, "trial-count");
     T = tc == 0 ? 6 : tc == 1 ? 1 : tc == 2 ? (W > 1 ? W - 1 : 2) : tc == 3 ? W : W + 2;
     (void)TS_;
+    if (vx_opt_int("pilot", 1)) {
+        /* a pilot experiment before the one under examination (free-running, one trial with the process /
+         * resource / observer model): the experiment examined is then never the first one in the program, and
+         * whatever the pilot's worker threads tore down on exit is met by it - in every execution alike */
+        static unsigned char pilot_el[4096] __attribute__((aligned(16)));
+        memset(pilot_el, 0, sizeof pilot_el);
+        in_experiment = false;
+        cimba_run_experiment(pilot_el, 1u, sizeof pilot_el, pilot_func);
+        __builtin_ia32_ldmxcsr(0x1f80);
+    }
     /* the real thing first: whatever its worker threads leave behind when they exit (they run the library's
      * thread clean-up) is then met by the sequential reference below and by the next execution's experiment -
      * a program may run several experiments and use the library in between */
